@@ -65,9 +65,16 @@ _STATE = {"n": 0}
 
 @contextlib.contextmanager
 def _quiet():
+  """qtools prints progress lines and logs absl 'fatal' records for rank-3
+  (Conv1D) kernels; keep the worker logs readable."""
+  import logging  # pylint: disable=g-import-not-at-top
   buf = io.StringIO()
-  with contextlib.redirect_stdout(buf):
-    yield
+  logging.disable(logging.CRITICAL)
+  try:
+    with contextlib.redirect_stdout(buf):
+      yield
+  finally:
+    logging.disable(logging.NOTSET)
 
 
 def _housekeeping():
@@ -554,7 +561,7 @@ def case_strategy(quick):
 
 
 def run(ctx):
-  n = (1600 if ctx.quick else 30000) // ctx.n + 1
+  n = (2880 if ctx.quick else 40000) // ctx.n + 1
   core.hyp_run(ctx, case_strategy(ctx.quick), lambda c: oracle(ctx, c), n,
                name="c19")
 
